@@ -183,6 +183,10 @@ def rb(orig, rule):
         if skipping:
             continue
         out.append(t)
+    if 'where' in out:
+        w = out.index('where')
+        end = out.index('{', w) if '{' in out[w:] else len(out)
+        out = out[:w] + out[end:]
     if out == toks:
         raise NoMatch('no bounds to drop')
     return ' '.join(out)
@@ -315,7 +319,16 @@ def r12m(orig, rule):
     return '(match %s { Some(%s) => Some(%s), None => None })' % (x, p_, e)
 
 
+def r4m(orig, rule):
+    # match arm  Some((I, &X)) => EXPR,   ->   Some((I, X)) => { let X = *X; EXPR }        (reference pattern on a Copy element)
+    s = norm(orig)
+    m = _m(r'Some \( \( (%s) , & (%s) \) \) => (.+) ,' % (ID, ID), s)
+    i, x, e = m.groups()
+    return 'Some((%s, %s)) => { let %s = *%s; %s }' % (i, x, x, x, e)
+
+
 GENERATORS = {
+    'R4m': r4m,
     'R12m': r12m,
     'R21': r21,
     'R9f': r9f, 'R17b': r17b,
@@ -330,3 +343,15 @@ GENERATORS = {
     'R1': r1, 'R2': r2, 'R3': r3, 'R4': r4, 'R9': r9, 'R9t': r9t, 'R10': r10, 'R10t': r10t, 'R11': r11,
     'R14': r14, 'R15': r15, 'R15t': r15t, 'R17': r17,
 }
+
+
+def has_generator(rule):
+    return all(part.split()[0] in GENERATORS for part in rule.split(' + '))
+
+
+def apply(rule, orig):
+    """apply a (possibly composite `A args + B args`) rule to the original text"""
+    text = orig
+    for part in rule.split(' + '):
+        text = GENERATORS[part.split()[0]](text, part)
+    return text
